@@ -275,6 +275,11 @@ func (e *Engine) callFunc(fr *frame, ins ssa.Instruction, fn *ssa.Function, args
 	return ret, r
 }
 
+// usesCallLog: the clause text reads the ghost call log.
+func usesCallLog(expr string) bool {
+	return strings.Contains(expr, "vcResult[") || strings.Contains(expr, "vcCalled(") || strings.Contains(expr, "vcArg[")
+}
+
 // callLogOf: the record for the callee named by the constant string argument of a ghost call.
 func (e *Engine) callLogOf(cc *ssa.CallCommon, ghost string) (*callRecord, string) {
 	c, ok := cc.Args[0].(*ssa.Const)
@@ -683,6 +688,11 @@ func (e *Engine) callByContract(fr *frame, ins ssa.Instruction, fn *ssa.Function
 		e.ghostEvent("logerror", and(reach, calleeLogged), "")
 	}()
 	for _, cl := range c.byKind("ensures") {
+		if usesCallLog(cl.Expr) {
+			// a clause about the calls the callee makes internally (ghost call log) is proved on the
+			// callee; it says nothing a caller could use
+			continue
+		}
 		pf := e.w.Preds[c.Pkg+"."+cl.Pred]
 		all := append(append([]Val{}, args...), resList...)
 		t := e.evalPred(pf, all, pre, beforeCall)
@@ -1239,6 +1249,16 @@ func (e *Engine) assumeCopy(dst, dOff, src, sOff, n string) {
 				e.sc.elemFacts[dst][dl] = v
 			}
 		}
+		return
+	}
+	if e.unrollCopies && len(e.sc.binders) == 0 {
+		// option unroll-appends: instead of the quantified fact, its first 16 instances written out, so that
+		// goals about short byte sequences (an instruction's bytes) need no quantifier instantiation
+		for k := 0; k < 16; k++ {
+			kk := bvLit(uint64(k), 64)
+			e.sc.assume(implies(app("bvslt", kk, n), eq(sel(dst, e.sc.addS(dOff, kk)), sel(src, e.sc.addS(sOff, kk)))))
+		}
+		// (the quantified fact itself is left out: fewer hypotheses, and the goal stays quantifier-free)
 		return
 	}
 	i := e.sc.freshName("ci")
